@@ -41,6 +41,28 @@ package scen
 // has an overlapping start request and another request ready at once, and
 // the outcome (refused / withdrawn) is a function of the schedule alone.
 //
+// Failure of the active-slot marker's Sync at the end of a reset (injected I/O
+// error in the fault variants; in both variants the reset's context cancelled
+// between the marker's Put and its Sync - every datastore call is a scheduler
+// step, so the cancellation lands there too). The clauses "after completion,
+// cancellation, Close or a crash at any write, a reopened keystore holds either
+// the complete previous set or the complete new set ... never a mixture or a
+// partial set, and its reported size matches" and "every datastore error
+// injection point" make no exception for that call: reset-atomicity and
+// reopen-size judge the reopen after it like any other. One case only is set
+// apart, because it is a recorded open finding of the unchanged tree (rule
+// reset-marker-not-persisted, "marker sync failed at the end of a reset"): the
+// restart was a CRASH and the fork dropped an unsynced write of the marker
+// (c20H.markerLost: fewer marker entries in the restarted journal than the old
+// process wrote - a journal fact, no implementation constant). A clean restart,
+// or a crash at which every marker write survived, loses nothing that was
+// unsynced about the marker; whatever the reopened keystore then holds is what
+// the keystore itself left on disk, and a mismatch is reported under the
+// ordinary rules (the failed Sync is only mentioned as a note in the message).
+// This exposes any error path of the swap that leaves marker, in-memory slot
+// choice and torn-down slot out of step (marker written but swap aborted, swap
+// done but marker rolled back, wrong slot torn down after a failed step).
+//
 // Schedules that would hit a select with two ready cases inside the keystore
 // (worker: requests vs. reset operations vs. close; withAltDs: token vs.
 // cancelled context) are not generated - see the gating comments below.
@@ -87,6 +109,10 @@ func init() {
 		"fault_overlap_reset", "probe_overlap_reset_refused", "probe_overlap_reset_withdrawn",
 		"probe_overlap_reset_in_prepare", "probe_overlap_reset_in_bulk", "probe_overlap_reset_in_catchup", "probe_overlap_reset_in_swap", "probe_overlap_reset_in_teardown",
 		"probe_overlap_reset_refused_after_acked_put", "probe_overlap_reset_then_reset_completed",
+		// reopen after the Sync of the active-slot marker did not succeed in a reset
+		// (injected error in the fault variants, cancelled context in both)
+		"probe_crash_lost_marker_write", "probe_marker_sync_failed_then_marker_lost",
+		"probe_clean_reopen_after_failed_marker_sync", "probe_crash_reopen_marker_kept_after_failed_marker_sync",
 	}
 	faultsF := []string{"fault_ds_error_has", "fault_ds_error_put", "fault_ds_error_query", "fault_ds_error_commit", "fault_ds_partial_commit", "fault_ds_error_sync", "probe_sync_failed_op_acknowledged", "probe_op_failed", "fault_boot_error", "probe_open_failed_on_injected_error"}
 	cat := func(a ...[]string) []string {
@@ -209,6 +235,7 @@ type c20H struct {
 	dupSeen    string
 	bootFault  string // start-up datastore call failed by injection in this epoch ("" none)
 	tainted    bool   // a finding was recorded that invalidates later judgements
+	markerLost bool   // the last restart (a crash) dropped an unsynced write of the active-slot marker
 	wedgeSched bool   // the reset was cancelled before its start was acknowledged
 	faultTags  map[string]int
 	stop       bool
@@ -1301,6 +1328,21 @@ func (h *c20H) forkAll(crash bool) (*simds.DS, map[string]*simds.DS) {
 		cut = h.drawCut(inst.meta, "meta")
 	}
 	meta := inst.meta.Fork(cut, name("meta"))
+	// Did this restart lose a write of the active-slot marker? (Journal facts
+	// only: the marker entries the old process wrote vs. those the fork kept.)
+	nMarker := func(d *simds.DS) int {
+		n := 0
+		for _, e := range d.Journal() {
+			if strings.HasSuffix(e.Key, "/active") {
+				n++
+			}
+		}
+		return n
+	}
+	h.markerLost = nMarker(meta) < nMarker(inst.meta)
+	if h.markerLost {
+		h.s.Count("probe_crash_lost_marker_write")
+	}
 	slots := map[string]*simds.DS{}
 	inst.mu.Lock()
 	var suffixes []string
@@ -1347,13 +1389,12 @@ func (h *c20H) expectation(clean bool) c20Expect {
 		syncFail bool
 	}
 	byTag := map[string]*info{}
-	markerFail := ""
+	markerPutFail, markerSyncFail := false, false
 	for di, d := range inst.all {
 		for _, r := range d.Log() {
-			if r.Err != nil && strings.HasSuffix(r.Key, "/active") && (r.Op == "put" || r.Op == "sync") && r.Tag != "" {
-				if markerFail == "" || r.Op == "put" {
-					markerFail = r.Op
-				}
+			if r.Err != nil && strings.HasSuffix(r.Key, "/active") && r.Tag != "" {
+				markerPutFail = markerPutFail || r.Op == "put"
+				markerSyncFail = markerSyncFail || r.Op == "sync"
 			}
 			if r.Tag == "" {
 				continue
@@ -1410,7 +1451,7 @@ func (h *c20H) expectation(clean bool) c20Expect {
 		}
 	}
 	ex := c20ComputeExpect(h.base, muts, resets)
-	ex.markerFail = markerFail
+	ex.markerPutFail, ex.markerSyncFail = markerPutFail, markerSyncFail
 	return ex
 }
 
@@ -1562,13 +1603,34 @@ func (h *c20H) verify(ex c20Expect, how string) {
 		h.tainted = true
 		return
 	}
-	marker := ""
-	if ex.markerFail != "" {
-		site := "write"
-		if ex.markerFail == "sync" {
-			site = "sync"
+	// Attribution when the active-slot marker could not be written or synced
+	// during a reset of the epoch. The recorded open finding is exactly: marker
+	// Put succeeded, its Sync failed, and then a CRASH LOST the unsynced marker
+	// write (the restart follows the old marker to the torn-down slot). Only
+	// that case is filed under its rule and message. Every other mismatch - a
+	// clean restart, or a crash at which no marker write was lost, so that
+	// nothing unsynced explains the content - is judged by the ordinary clauses
+	// (reset-atomicity / reopen-size / reopen-content): "after completion,
+	// cancellation, Close or a crash at any write, a reopened keystore holds
+	// either the complete previous set or the complete new set ..., and its
+	// reported size matches", for "every datastore error injection point". The
+	// failed marker operation is then only mentioned as a note.
+	marker, note := "", ""
+	switch {
+	case ex.markerSyncFail && how == "crash" && h.markerLost:
+		marker = "marker sync failed at the end of a reset (the error is only logged; the in-memory swap stands and the old slot is torn down) and the crash lost the unsynced marker write, so the restart follows the old marker on disk: "
+		s.Count("probe_marker_sync_failed_then_marker_lost")
+	case ex.markerPutFail && !ex.markerSyncFail:
+		marker = "marker write failed at the end of a reset (a restart follows the marker on disk): "
+	case ex.markerSyncFail:
+		note = fmt.Sprintf(" [a Sync of the active-slot marker did not succeed during a reset of this epoch (injected error or cancelled context); no write of the marker was lost at this %s, so what the restart finds is what the keystore left on disk]", how)
+	}
+	if ex.markerSyncFail {
+		if how != "crash" {
+			s.Count("probe_clean_reopen_after_failed_marker_sync")
+		} else if !h.markerLost {
+			s.Count("probe_crash_reopen_marker_kept_after_failed_marker_sync")
 		}
-		marker = fmt.Sprintf("marker %s failed at the end of a reset (the error is only logged; the in-memory swap stands and the old slot is torn down, but a restart follows the marker on disk): ", site)
 	}
 	if get.outBad != "" {
 		h.violate("reopen-foreign", "after a %s Get(\"\") %s", how, get.outBad)
@@ -1611,8 +1673,8 @@ func (h *c20H) verify(ex c20Expect, how string) {
 		h.tainted = true
 		return
 	default:
-		s.Violate("reset-atomicity", "after a %s the keystore holds %s (the epoch started with %s), which is neither the complete old set nor a complete new set (each with the concurrent puts): %s",
-			how, c20Fmt(content), c20Fmt(h.base), strings.Join(diag, "; "))
+		s.Violate("reset-atomicity", "after a %s the keystore holds %s (the epoch started with %s), which is neither the complete old set nor a complete new set (each with the concurrent puts): %s%s",
+			how, c20Fmt(content), c20Fmt(h.base), strings.Join(diag, "; "), note)
 		h.tainted = true
 		return
 	}
@@ -1620,7 +1682,7 @@ func (h *c20H) verify(ex c20Expect, how string) {
 		if marker != "" {
 			s.Violate("reset-marker-not-persisted", "%safter a %s Size() reports %d but the keystore holds %d keys", marker, how, size.outN, bits.OnesCount64(content))
 		} else {
-			h.violate("reopen-size", "after a %s Size() reports %d but the keystore holds %d keys %s", how, size.outN, bits.OnesCount64(content), c20Fmt(content))
+			h.violate("reopen-size", "after a %s Size() reports %d but the keystore holds %d keys %s%s", how, size.outN, bits.OnesCount64(content), c20Fmt(content), note)
 		}
 		h.tainted = true
 		return
